@@ -735,6 +735,9 @@ inductive Spec where
   | setContext
   /-- `lena.flow.RunIf(5, *inner)`: a `select` that cannot be converted to a `Selector` -/
   | runIfBad (inner : List Spec)
+  /-- a Run element with `_can_break_flow` whose `run` yields two values, `v` and `[v]`, for every value `v`
+  (a flow-breaking element other than `RunIf`, like `MapGroup`) -/
+  | dup
 
 /-- the synthetic classes' `fill` appends to a list, `compute` yields `["fc", [filled values]]` -/
 def synAcc : Acc AccState Value :=
@@ -788,6 +791,9 @@ def Spec.toObj : Spec → Except Exc Obj
           accDen := synAcc }
   | .junk => .ok { caps := capsOf [] false }
   | .setContext => .ok { caps := capsOf [] false, hasNoData := true }
+  | .dup =>
+    .ok { caps := capsOf [("run", .method), ("_can_break_flow", .value)] false
+          runDen := fun s => .ok (bindS (fun v => .ofList [v, .list [v]]) s) }
   | .runIfBad inner =>
     -- the arguments are evaluated first, then `RunIf.__init__` fails on `select` (lines 176-183)
     match Spec.toObjs inner with
@@ -926,6 +932,7 @@ def Spec.inScopeB : Spec → Bool
     | .islice _ _ _ => true
     | _ => false
   | .runIf _ _ => true
+  | .dup => true
   | _ => false
 
 /-! ## specification side of the adapters (used by `Props/C05.lean`, evaluated by the driver) -/
